@@ -29,6 +29,7 @@ def _universe(patterns, extra=""):
                 pts.add(chr(o))
     pts |= set("0123456789")       # digits individually (categories)
     pts |= set("abcmnxyzABCMNXYZ")
+    pts.add("\u0663")              # a non-ASCII decimal digit: \d accepts it, [0-9] does not
     pts.add("\x01")                # 'anything else'
     return sorted(pts)
 
